@@ -249,7 +249,7 @@ def check_doc(signame, ast, res, case=None):
         return
     for f in feats:
         res.label(f)
-    res.label('ctx:' + ctxname)
+    res.label('ctx:' + ctxname, {'sig': signame, 'src': src})
     if nontriv:
         res.nontriv(src)
 
